@@ -44,15 +44,116 @@ theorem set_complete_sound (cfg : Cfg) (su : Setup) (s : State) (hr : Reach cfg 
   intro m hm h1 h2
   exact (memberOK_inv s hr m hm).fin_ceased (closed_members_finished s hr hc m hm h1 h2)
 
+/-- When no call is made before `StartAll` has returned: a wait returns `true` only when `StartAll` has started every
+executable process of the set (in order, each with its own stream) and every one of them has completed. -/
+theorem set_complete_sound_exec (cfg : Cfg) (su : Setup) (s : State) (hr : Reach cfg su s) (he : s.earlyWait = false)
+    (w : Nat) (hw : WaitTrue s w) :
+    s.toStart = [] ∧ startedStreams s = su.execs ∧ ∀ m ∈ s.members, m.origin = none → m.ceased = true := by
+  obtain ⟨wt, hwt, hres⟩ := waitTrue_iff.mp hw
+  have hc := waits_need_close s hr wt (List.mem_of_getElem? hwt) (Or.inl hres)
+  have inv := earlyInv_inv s hr
+  obtain ⟨hts, hsa⟩ := inv.e1 he (inv.e2 hc)
+  have hst := started_streams s hr
+  rw [hts, List.append_nil] at hst
+  refine ⟨hts, hst, ?_⟩
+  intro m hm ho
+  obtain ⟨j, hj⟩ := List.mem_iff_getElem?.mp hm
+  have hcnt : m.counted = true := by
+    cases hcn : m.counted with
+    | true => rfl
+    | false =>
+      rcases uncounted_pending s hr j m hj hcn with h | h
+      · rw [hsa] at h; cases h
+      · obtain ⟨m', hm', ho'⟩ := inv.po j h
+        rw [hj] at hm'; cases hm'
+        rw [ho] at ho'; cases ho'
+  have hlj : m.lateJoin = false := by
+    cases hl : m.lateJoin with
+    | false => rfl
+    | true =>
+      rcases inv.lj m hm hl with h | h
+      · rw [ho] at h; cases h
+      · rw [he] at h; cases h
+  exact set_complete_sound cfg su s hr w hw m hm hcnt hlj
+
+/-! ## every executable process is started, and each member behaves as it would alone -/
+
+/-- `StartAll` starts the executable processes in order; what a member has emitted followed by what it has still to
+emit is, at every moment and under every schedule, the stream of its own process — of the executable process for a
+member started by `StartAll`, of the waiting process the message flow points to for an instantiated one: the set adds
+nothing to and removes nothing from the behaviour of a member (it only decides when a catch event is woken). -/
+theorem member_behaves_alone (cfg : Cfg) (su : Setup) (s : State) (hr : Reach cfg su s) :
+    startedStreams s ++ s.toStart = su.execs ∧
+    ∀ m ∈ s.members, ∀ id, m.origin = some id →
+      ∃ w, su.target id = some (.start w) ∧ su.waitings[w]? = some m.whole :=
+  ⟨started_streams s hr, instance_streams s hr⟩
+
+/-! ## message flows: once per throw -/
+
+/-- Safety, for all facts and schedules: the members instantiated for throw event `id` are exactly the instantiations
+`run` performed, and instantiations + wake-ups + messages handled without effect never exceed the throws emitted —
+no throw is delivered twice. -/
+theorem message_flow_once (cfg : Cfg) (su : Setup) (s : State) (hr : Reach cfg su s) (id : Nat) :
+    s.instances id = s.instantiated.count id ∧
+    s.instantiated.count id + s.woken.count id + s.dropped.count id ≤ s.thrown.count id := by
+  refine ⟨instances_eq s hr id, ?_⟩
+  have := msg_account s hr id
+  unfold MsgAccount at this
+  omega
+
+/-- Liveness, under the subscription facts and while `run` is in its loop: when nothing can move any more, every throw
+emitted so far has been handled — exactly one instantiation, wake-up or (no flow / catch event not listening) drop
+per throw. -/
+theorem message_flow_live (cfg : Cfg) (su : Setup) (h1 : cfg.subBeforeStart = true) (h2 : cfg.instSubBeforeStart = true)
+    (s : State) (hr : Reach cfg su s) (hq : Quiescent cfg su s) (hp : s.panicked = false) (ha : s.runAlive = true)
+    (id : Nat) : s.instantiated.count id + s.woken.count id + s.dropped.count id = s.thrown.count id := by
+  have hsa : s.saPending = none := by
+    cases h : s.saPending with
+    | none => rfl
+    | some i => have := hq _ (enabled_saRegister (cfg := cfg) (su := su) hp h); cases this
+  have hrun : s.runPending = none := by
+    cases h : s.runPending with
+    | none => rfl
+    | some i => have := hq _ (enabled_runRegister (cfg := cfg) (su := su) hp h); cases this
+  have hmch : s.mch = [] := by
+    cases h : s.mch with
+    | nil => rfl
+    | cons x l => have := hq _ (enabled_runMsg (cfg := cfg) (su := su) hp ha hrun (by rw [h]; simp)); cases this
+  have hqs : ∀ m ∈ s.members, m.queue = [] ∧ m.missed = [] := by
+    intro m hm
+    obtain ⟨j, hj⟩ := List.mem_iff_getElem?.mp hm
+    obtain ⟨hsub, hmiss⟩ := subscribed_from_start h1 h2 s hr m hm
+    refine ⟨?_, hmiss⟩
+    cases hf : m.finished with
+    | true => exact (queueOK_inv s hr m hm).fin_empty hf
+    | false =>
+      have hcnt : m.counted = true := by
+        cases hc : m.counted with
+        | true => rfl
+        | false =>
+          rcases uncounted_pending s hr j m hj hc with h | h
+          · rw [hsa] at h; cases h
+          · rw [hrun] at h; cases h
+      cases hq' : m.queue with
+      | nil => rfl
+      | cons t q =>
+        have := hq _ (enabled_watcher (cfg := cfg) (su := su) hp hj hcnt hsub hf (by rw [hq']; simp))
+        cases this
+  have := msg_account s hr id
+  unfold MsgAccount at this
+  rw [hmch, total_zero_of_forall (qThrows id) _ (fun m hm => by simp [qThrows, (hqs m hm).1]),
+    total_zero_of_forall (mThrows id) _ (fun m hm => by simp [mThrows, (hqs m hm).2])] at this
+  simpa using this
+
 /-! ## completion is reported when it is true (needs the subscription before the start) -/
 
 /-- With the watcher's subscription established before the member process is started: once every started member
 has completed and no goroutine of the set can move any more, every call whose context has not expired has
-returned `true` — however quickly the members finished. (`hk`: no wake-up goroutine is left waiting.) -/
+returned `true` — however quickly the members finished. -/
 theorem set_complete_live (cfg : Cfg) (su : Setup) (h1 : cfg.subBeforeStart = true) (h2 : cfg.instSubBeforeStart = true)
     (s : State) (hr : Reach cfg su s) (hq : Quiescent cfg su s) (hp : s.panicked = false)
-    (hall : ∀ m ∈ s.members, m.ceased = true) (hk : ∀ wk ∈ s.wakers, wk.done = true)
-    (w : Nat) (hw : WaitOpen s w) : WaitTrue s w := by
+    (hall : ∀ m ∈ s.members, m.ceased = true) (w : Nat) (hw : WaitOpen s w) : WaitTrue s w := by
+  have hk := wakers_done_of_all_ceased s hr hall
   obtain ⟨wt, hwt, hres⟩ := waitOpen_iff.mp hw
   -- nothing is waiting to be registered
   have hsa : s.saPending = none := by
@@ -237,5 +338,111 @@ theorem C18_counterexample_message_lost_at_completion (cfg : Cfg) :
   obtain ⟨a, b, c, d, e⟩ := cfg
   cases a <;> cases b <;> cases c <;> cases d <;> cases e <;>
     exact ⟨quiescent_of_check (by decide), by decide, by decide, by decide, by decide⟩
+
+/-! ## the statement -/
+
+/-- The full statement of C18 on the model, for the facts `cfg`, kept visible: for every set and every reachable state
+(1) a wait that returned `true` means every member started so far has completed; (2) when all members have completed
+and nothing can move, every open wait has returned `true`; (3) no panic, whatever the number and timing of the waits;
+(4) at most one cease-process-set trace, and exactly one once `done` is closed and nothing can move; (5) no throw is
+delivered twice, and when nothing can move every throw has been handled; (6) the executable processes are started in
+order and every member emits the stream of its own process. -/
+def C18_statement (cfg : Cfg) : Prop :=
+  ∀ (su : Setup) (s : State), Reach cfg su s →
+    (∀ w, WaitTrue s w → ∀ m ∈ s.members, m.ceased = true) ∧
+    (Quiescent cfg su s → (∀ m ∈ s.members, m.ceased = true) → ∀ w, WaitOpen s w → WaitTrue s w) ∧
+    s.panicked = false ∧
+    (s.ceaseSet ≤ 1 ∧ (Quiescent cfg su s → 1 ≤ s.closes → s.ceaseSet = 1)) ∧
+    (∀ id, s.instances id = s.instantiated.count id ∧
+       s.instantiated.count id + s.woken.count id + s.dropped.count id ≤ s.thrown.count id ∧
+       (Quiescent cfg su s → s.instantiated.count id + s.woken.count id + s.dropped.count id = s.thrown.count id)) ∧
+    (startedStreams s ++ s.toStart = su.execs ∧
+       ∀ m ∈ s.members, ∀ id, m.origin = some id → ∃ w, su.target id = some (.start w) ∧ su.waitings[w]? = some m.whole)
+
+/-- What is proved: the statement with clause (1) restricted to the members registered with the wait group before
+`done` was closed (and, when no call precedes the return of `StartAll`, to all executable processes), and the
+"every throw has been handled" half of clause (5) restricted to states in which `run` is still in its loop. The
+restrictions exclude exactly `C18_counterexample_complete_before_instantiated` and
+`C18_counterexample_message_lost_at_completion`. -/
+def C18_core (cfg : Cfg) : Prop :=
+  ∀ (su : Setup) (s : State), Reach cfg su s →
+    (∀ w, WaitTrue s w →
+      (∀ m ∈ s.members, m.counted = true → m.lateJoin = false → m.ceased = true) ∧
+      (s.earlyWait = false → s.toStart = [] ∧ ∀ m ∈ s.members, m.origin = none → m.ceased = true)) ∧
+    (Quiescent cfg su s → (∀ m ∈ s.members, m.ceased = true) → ∀ w, WaitOpen s w → WaitTrue s w) ∧
+    s.panicked = false ∧
+    (s.ceaseSet ≤ 1 ∧ (Quiescent cfg su s → 1 ≤ s.closes → s.ceaseSet = 1)) ∧
+    (∀ id, s.instances id = s.instantiated.count id ∧
+       s.instantiated.count id + s.woken.count id + s.dropped.count id ≤ s.thrown.count id ∧
+       (Quiescent cfg su s → s.runAlive = true →
+          s.instantiated.count id + s.woken.count id + s.dropped.count id = s.thrown.count id)) ∧
+    (startedStreams s ++ s.toStart = su.execs ∧
+       ∀ m ∈ s.members, ∀ id, m.origin = some id → ∃ w, su.target id = some (.start w) ∧ su.waitings[w]? = some m.whole)
+
+/-- C18 with the two restrictions, for every set and every schedule, under the three facts. -/
+theorem C18_partial (cfg : Cfg) (h1 : cfg.subBeforeStart = true) (h2 : cfg.instSubBeforeStart = true)
+    (h3 : cfg.closeOnce = true) : C18_core cfg := by
+  intro su s hr
+  have hp : s.panicked = false := by
+    cases hpn : s.panicked with
+    | false => rfl
+    | true => have := panic_needs_unguarded s hr hpn; rw [h3] at this; cases this
+  refine ⟨?_, ?_, hp, ?_, ?_, member_behaves_alone cfg su s hr⟩
+  · intro w hw
+    exact ⟨set_complete_sound cfg su s hr w hw,
+      fun he => ⟨(set_complete_sound_exec cfg su s hr he w hw).1, (set_complete_sound_exec cfg su s hr he w hw).2.2⟩⟩
+  · intro hq hall w hw
+    exact set_complete_live cfg su h1 h2 s hr hq hp hall w hw
+  · obtain ⟨a, _, c⟩ := cease_set_once cfg su s hr
+    exact ⟨a, fun hq hc => c hq hp hc⟩
+  · intro id
+    obtain ⟨a, b⟩ := message_flow_once cfg su s hr id
+    exact ⟨a, b, fun hq ha => message_flow_live cfg su h1 h2 s hr hq hp ha id⟩
+
+/-- The full statement is false for every value of the facts: the wait group covers neither a message in `ps.mch` nor
+an instantiation in progress. -/
+theorem C18_not_holds (cfg : Cfg) : ¬ C18_statement cfg := by
+  intro h
+  obtain ⟨h1, _⟩ := h throwAndWaiting _ (reach_exec (cfg := cfg) schedCompleteBeforeInstantiated)
+  obtain ⟨hw, _, hm⟩ := C18_counterexample_complete_before_instantiated cfg
+  rw [List.any_eq_true] at hm
+  obtain ⟨m, hmem, hprop⟩ := hm
+  have := h1 0 hw m hmem
+  simp [this] at hprop
+
+/-! ## non-vacuity: the hypotheses of the theorems above are met by concrete non-trivial runs (tests, not the claim) -/
+
+/-- repaired facts, one process: it completes, two calls, both return `true`, one cease-process-set trace, quiescent -/
+def schedHappy : List Choice :=
+  [.saStart, .proc 0, .watcher 0, .waitCall, .closer 0, .waitReturn 0, .runDone, .waitCall, .closer 1, .waitReturn 1]
+
+example : Quiescent Cfg.repaired oneTrivial (exec Cfg.repaired oneTrivial schedHappy) := quiescent_of_check (by decide)
+example : (∀ m ∈ (exec Cfg.repaired oneTrivial schedHappy).members, m.ceased = true) ∧
+    WaitOpen (exec Cfg.repaired oneTrivial schedHappy) 0 ∧ WaitTrue (exec Cfg.repaired oneTrivial schedHappy) 1 ∧
+    (exec Cfg.repaired oneTrivial schedHappy).panicked = false ∧ (exec Cfg.repaired oneTrivial schedHappy).ceaseSet = 1 ∧
+    (exec Cfg.repaired oneTrivial schedHappy).earlyWait = false ∧
+    (exec Cfg.repaired oneTrivial schedHappy).members.all (fun m => m.counted && !m.lateJoin) = true := by decide
+
+/-- repaired facts, throw → waiting process: the message is delivered while `run` is in its loop; quiescent -/
+def schedDelivered : List Choice :=
+  [.saStart, .proc 0, .watcher 0, .runMsg, .proc 0, .watcher 0, .proc 1, .watcher 1]
+
+example : Quiescent Cfg.repaired throwAndWaiting (exec Cfg.repaired throwAndWaiting schedDelivered) :=
+  quiescent_of_check (by decide)
+example : (exec Cfg.repaired throwAndWaiting schedDelivered).runAlive = true ∧
+    (exec Cfg.repaired throwAndWaiting schedDelivered).thrown = [7] ∧
+    (exec Cfg.repaired throwAndWaiting schedDelivered).instantiated = [7] ∧
+    (exec Cfg.repaired throwAndWaiting schedDelivered).instances 7 = 1 ∧
+    (exec Cfg.repaired throwAndWaiting schedDelivered).allCeased = true := by decide
+
+/-- a catch event woken through a message flow: process 0 throws 3, process 1 listens at catch event 5 -/
+def throwAndCatch : Setup := { execs := [[.throw 3], [.listen 5, .tau]], waitings := [], flows := [(3, .catch_ 5)] }
+def schedWoken : List Choice :=
+  [.saStart, .saStart, .proc 1, .watcher 1, .proc 0, .watcher 0, .runMsg, .waker 0, .proc 1, .watcher 1, .proc 1, .watcher 1,
+   .proc 0, .watcher 0, .waitCall, .closer 0, .waitReturn 0, .runDone]
+
+example : Quiescent Cfg.repaired throwAndCatch (exec Cfg.repaired throwAndCatch schedWoken) := quiescent_of_check (by decide)
+example : (exec Cfg.repaired throwAndCatch schedWoken).woken = [3] ∧ (exec Cfg.repaired throwAndCatch schedWoken).allCeased = true ∧
+    WaitTrue (exec Cfg.repaired throwAndCatch schedWoken) 0 ∧ (exec Cfg.repaired throwAndCatch schedWoken).wg = 0 := by decide
 
 end Bpmn.Props.C18
